@@ -68,7 +68,7 @@ def plans(draw):
   refuse_delay = draw(st.sampled_from([None, None, 400, 900]))
   close_on_connect = None
   if refuse_delay and close_at is None and draw(st.booleans()):
-    close_on_connect = {'nth': draw(st.integers(1, 6)), 'delay_ms': draw(st.sampled_from([50, 200, refuse_delay - 50]))}
+    close_on_connect = {'nth': draw(st.sampled_from([1, 1, 1, 2, 3, 4, 5, 6])), 'delay_ms': draw(st.sampled_from([50, 200, refuse_delay - 50]))}
   if affected:
     close_at = None
   close_on_error = None
